@@ -29,6 +29,9 @@ type simParams struct {
 	// the resulting head updates is delivered with probability 0.4, everything else (also what the
 	// deliveries emit) is lost - multi-head sets that only anti-entropy can repair
 	Concurrent bool `json:"concurrent"`
+	// LongLived > 0: r1 makes one edit and is then cut off (everything to and from it is lost) while
+	// r2 makes that many snapshot edits in a row (a long snapshot chain, r1 far behind); then phase 2
+	LongLived int `json:"longLived"`
 }
 
 // one line of the recorded trace (spec/treesync/TreeSyncTrace.tla)
@@ -45,6 +48,7 @@ type tev struct {
 	P    string      `json:"p,omitempty"`
 	Snap bool        `json:"snap"`
 	Id   string      `json:"id,omitempty"`
+	Mode string      `json:"mode,omitempty"`
 	Ch   *changeInfo `json:"ch,omitempty"`
 	M    *msg        `json:"m,omitempty"`
 	Bs   []batch     `json:"bs"`
@@ -188,6 +192,50 @@ func runSim(pool *slotPool, p simParams, rep *vfutil.Report, tw *vfutil.TraceWri
 	if snapPct == 0 {
 		snapPct = 20
 	}
+	if p.LongLived > 0 {
+		dropAll := func() {
+			for _, m := range append([]*msg{}, w.net...) {
+				if m.To == "r1" || m.From == "r1" {
+					w.removeFromNet(m)
+					emit(tev{Ev: "Drop", M: m})
+				}
+			}
+		}
+		add := func(r *replica, snap bool) bool {
+			sr := w.addContent(r, snap)
+			if sr.Err != nil {
+				panic(fmt.Sprintf("AddContent: %v", sr.Err))
+			}
+			ci := w.universe[sr.NewId]
+			emit(tev{Ev: "AddContent", R: r.name, Snap: snap, Id: sr.NewId, Ch: &ci, Emit: sr.Emitted, St: stateOf(r)})
+			_, ok := checkAll(w, rep, "long-lived tree: AddContent "+r.name, replay)
+			rep.AddSteps(1)
+			return ok
+		}
+		if !add(w.reps[0], false) {
+			return false
+		}
+		dropAll()
+		for i := 0; i < p.LongLived; i++ {
+			if !add(w.reps[1], true) {
+				return false
+			}
+			dropAll()
+			// the others follow (sometimes late)
+			for len(w.net) > 0 && rng.Intn(3) != 0 {
+				m := w.net[rng.Intn(len(w.net))]
+				w.removeFromNet(m)
+				sr := w.deliver(m)
+				logDeliver(m, sr)
+				dropAll()
+				if _, ok := checkAll(w, rep, "long-lived tree: deliver "+m.key(), replay); !ok {
+					return false
+				}
+				rep.AddSteps(1)
+			}
+		}
+		edits = 0
+	}
 	if p.Concurrent {
 		for round := 0; round < 2+rng.Intn(3); round++ {
 			for _, r := range holders() {
@@ -276,6 +324,39 @@ func runSim(pool *slotPool, p simParams, rep *vfutil.Report, tw *vfutil.TraceWri
 			what = "AddContent " + r.name
 		case len(w.net) == 0:
 			continue
+		case x >= 64 && x < 70 && !p.Lossless:
+			// fate: delivered under a context that is (or becomes, at the first storage write) dead
+			var cand []*msg
+			for _, m := range w.net {
+				if (m.Kind == kHeadUpdate || m.Kind == kResponse) && len(m.Changes) > 0 && w.byName[m.To].tree != nil {
+					cand = append(cand, m)
+				}
+			}
+			if len(cand) == 0 {
+				continue
+			}
+			m := cand[rng.Intn(len(cand))]
+			mode := []string{"before", "onwrite"}[rng.Intn(2)]
+			w.removeFromNet(m)
+			dst := w.byName[m.To]
+			sr := w.deliverCancelled(m, mode)
+			emit(tev{Ev: "DeliverCancelled", M: m, Mode: mode, Emit: sr.Emitted, St: stateOf(dst)})
+			what = "deliver with cancelled context (" + mode + ") " + m.key()
+			if _, ok := checkAll(w, rep, what, replay); !ok {
+				return false
+			}
+			if edits > 0 && rng.Intn(10) < 6 {
+				// ... and the replica goes on editing on top of whatever the failed call left behind
+				snap := rng.Intn(100) < snapPct
+				ar := w.addContent(dst, snap)
+				if ar.Err != nil {
+					panic(fmt.Sprintf("AddContent: %v", ar.Err))
+				}
+				edits--
+				ci := w.universe[ar.NewId]
+				emit(tev{Ev: "AddContent", R: dst.name, Snap: snap, Id: ar.NewId, Ch: &ci, Emit: ar.Emitted, St: stateOf(dst)})
+				what += "; then AddContent " + dst.name
+			}
 		case x < 70:
 			m := w.net[rng.Intn(len(w.net))]
 			w.removeFromNet(m)
@@ -375,20 +456,23 @@ func TestRecord(t *testing.T) {
 	events := 0
 	bad := 0
 	for run := 0; run < runs; run++ {
-		p := simParams{Seed: seed, Run: run, N: 3 + rng.Intn(maxN-2), Edits: 10 + rng.Intn(16), Lossless: run%3 == 1, Big: run%8 == 5, Absent: run%4 == 2}
-		if run%5 == 4 && !p.Lossless {
-			p.Partition, p.SnapPct, p.Absent = true, 35, false
-		}
-		if run%5 == 3 && !p.Lossless {
-			p.Concurrent, p.Absent, p.Big, p.N = true, false, false, min(3+rng.Intn(2), maxN)
-		}
-		if run%3 == 0 && !p.Concurrent {
-			// heavy loss, many snapshots, few replicas: replicas fall behind snapshots
+		// profiles by run number (the first six - the quick tier - cover every special profile once)
+		p := simParams{Seed: seed, Run: run, N: 3 + rng.Intn(maxN-2), Edits: 10 + rng.Intn(16)}
+		switch run % 10 {
+		case 0: // heavy loss, many snapshots, few replicas: replicas fall behind snapshots
 			p.N, p.DropPct, p.SnapPct = 3, 30, 40
-		}
-		if p.Big {
-			p.Edits = 6 + rng.Intn(5)
-			p.N = 3
+		case 1, 7:
+			p.Lossless = true
+		case 2:
+			p.Absent = true
+		case 3:
+			p.Concurrent, p.N = true, min(3+rng.Intn(2), maxN)
+		case 4: // long-lived tree, stale replica
+			p.LongLived, p.N = []int{20, 40, 5}[(run/10)%3], 3
+		case 5:
+			p.Big, p.Edits, p.N = true, 6+rng.Intn(5), 3
+		case 6:
+			p.Partition, p.SnapPct = true, 35
 		}
 		var tw *vfutil.TraceWriter
 		if out != "" && run < traceRuns {
@@ -402,7 +486,7 @@ func TestRecord(t *testing.T) {
 		if !ok {
 			bad++
 		}
-		rep.Case(fmt.Sprintf("n%d-e%d-l%v-b%v-a%v-p%v-d%d", p.N, p.Edits, p.Lossless, p.Big, p.Absent, p.Partition || p.Concurrent, p.DropPct))
+		rep.Case(fmt.Sprintf("n%d-e%d-l%v-b%v-a%v-p%v-d%d", p.N, p.Edits, p.Lossless, p.Big, p.Absent, p.Partition || p.Concurrent || p.LongLived > 0, p.DropPct))
 		rep.AddReplayed(1)
 		if run < 2 {
 			rep.Sample(map[string]any{"sim": p, "ok": ok})
